@@ -29,7 +29,7 @@ def one(sd: pathlib.Path):
     listed = meta.get("checks_that_report_it", {})
     if not isinstance(listed, dict) or not all(k.startswith("C") and len(k) == 3 for k in listed):
         return sd.name, "skipped (special meta)", {}
-    want = sorted(set(listed) | {meta["property"]}) if listed else [meta["property"]]
+    want = sorted(set(listed) | {meta["property"]})
     tmp = pathlib.Path(tempfile.mkdtemp(prefix="gsv-reg-", dir="/var/tmp"))
     try:
         rc, o = sh(f"git -C /repo worktree add -q --detach {tmp}/wt HEAD")
@@ -44,7 +44,9 @@ def one(sd: pathlib.Path):
             rc, o = sh(f"timeout 1700 {PY} -m gsverif check {pid} --tier quick --repo {tmp}/wt", cwd=str(VERIF), env=env)
             res[pid] = rc
         own = res.get(meta["property"])
-        status = "ok" if all(v == 1 for v in res.values()) else ("own-check-ok" if own == 1 else "REGRESSION")
+        undecided = set(meta.get("checks_that_cannot_decide_it", {}))
+        own_ok = own == 1 or (meta["property"] in undecided and own == 2)       # never a silent pass
+        status = "ok" if all(v == 1 or (k in undecided and v == 2) for k, v in res.items()) else ("own-check-ok" if own_ok else "REGRESSION")
         return sd.name, status, res
     finally:
         sh(f"git -C /repo worktree remove --force {tmp}/wt")
